@@ -369,6 +369,7 @@ func writeEvidence(p *Program, cr *checkResult, verif string, seed, violations i
 	assumptions := []string{
 		"go/packages + go/ssa (x/tools v0.29.0, NaiveForm) give a faithful SSA of the working tree; the translation of SSA to SMT (DESIGN.md section 2) and the SMT solvers are trusted",
 		"sequential execution; memory and stack unbounded (allocation failure not modelled)",
+		"strings (and byte slices converted to strings) are shorter than 2^48 bytes",
 		"integers are mathematical in the logic; every + - * negation and integer conversion in the functions under contract carries a discharged no-wrap obligation, so that treatment is itself proved there",
 		"lemma statements in /verif/spec/*.smt2 are proved by the hand-written induction schemas in /verif/spec/lemmas (each check-sat is an obligation of this run); spec functions (natval, pow10, scaled, automata) are the formal reading of the documentation",
 		"definitional ghosts (;@definitional predicates) are total definitions and therefore consistent",
